@@ -208,11 +208,18 @@ def family_random(run, family, module, n, label="random", shards=64, timeout=360
 
 
 def family_enumerated(run, family, gen_module, trace_module, label="enumerated", gen_cfg=None, shards=64, env=None,
-                      timeout=3600):
-    """(G): cases enumerated by TLC from the reference model are executed by the real code and judged."""
+                      timeout=3600, conv=None):
+    """(G): cases enumerated by TLC from the reference model are executed by the real code and judged.
+    conv(case, index) may add driver-side parameters (e.g. an exact scale) to every enumerated case."""
     cases, n = run.tlc_cases(gen_module, cfg=gen_cfg, env=env, timeout=timeout)
     if n == 0:
         raise MachineryError("no cases enumerated by " + gen_module)
+    if conv:
+        tmp = cases + ".conv"
+        with open(cases) as f, open(tmp, "w") as g:
+            for i, line in enumerate(f):
+                g.write(json.dumps(conv(json.loads(line), i), separators=(",", ":")) + "\n")
+        os.replace(tmp, cases)
     ev = os.path.join(run.dir, "events-%s-%s.ndjson" % (family, label))
     run.drive(["one", family], out_path=ev, stdin_path=cases)
     judge_events(run, family, trace_module, ev, label, shards=shards, timeout=timeout)
